@@ -647,7 +647,9 @@ func calAndSetShortCircuit(e *Expr) {
 			f[i] = i
 			continue
 		}
-		if isLastChild(e, i) {
+		// the result of the last child is the result of the bool operator,
+		// as long as the operator has enough operands to be a valid call
+		if isLastChild(e, i) && p.childCnt > 1 {
 			flag |= scIfTrue
 			flag |= scIfFalse
 		}
